@@ -175,7 +175,7 @@ fn real_parse_map(b: &Built, lexer: &StubLexer, costs: &[u8], hash_seed: u64, cl
     })
 }
 
-fn real_parse_actions(b: &Built, lexer: &StubLexer, costs: &[u8], hash_seed: u64, clock: &ClockPolicy) -> (SimOutcome<ActRun>, SimStats) {
+fn real_parse_actions(b: &Built, lexer: &StubLexer, costs: &[u8], hash_seed: u64, clock: &ClockPolicy, rk: RecoveryKind) -> (SimOutcome<ActRun>, SimStats) {
     sim_process(hash_seed, Some(clock), || {
         let recs: RefCell<Vec<Rec>> = RefCell::new(vec![]);
         let cf = |t: TIdx<u16>| costs[usize::from(t)];
@@ -209,7 +209,7 @@ fn real_parse_actions(b: &Built, lexer: &StubLexer, costs: &[u8], hash_seed: u64
             .collect();
         let actions: Vec<AF> = closures.iter().map(|c| &**c as AF).collect();
         let (v, errs) = RTParserBuilder::<u16, LT>::new(&b.grm, &b.st)
-            .recoverer(RecoveryKind::CPCTPlus)
+            .recoverer(rk)
             .term_costs(&cf)
             .parse_actions(&lx, &actions, PARAM_MAGIC);
         let errors = conv_errs(errs);
@@ -351,7 +351,7 @@ pub fn execute(sc: &RScenario, opts: &ExecOpts) -> RunReport {
 
     // ---- real runs ---------------------------------------------------------------------------
     let (mo, mstats) = real_parse_map(b, &lexer, &prep.costs, sc.hash_seed, &sc.clock);
-    let (ao, astats) = real_parse_actions(b, &lexer, &prep.costs, sc.hash_seed, &sc.clock);
+    let (ao, astats) = real_parse_actions(b, &lexer, &prep.costs, sc.hash_seed, &sc.clock, RecoveryKind::CPCTPlus);
     rep.clock_reads = mstats.clock_reads;
     rep.elapsed_ns = mstats.elapsed_ns;
     let mut lh = fnv(&mstats.clock_reads.to_le_bytes());
@@ -814,6 +814,34 @@ pub fn execute(sc: &RScenario, opts: &ExecOpts) -> RunReport {
 
     // ---- C08: action history ----------------------------------------------------------------
     check_c08(&mut j, grm, &act, value.as_ref(), ref_tree.as_ref(), ref_forest.as_ref(), walk_ok);
+
+    // ---- the same input without error recovery (C07 c/d/e, C08 on the prefix) -----------------
+    if !errors.is_empty() && sc.clock.jumps.is_empty() && sc.hash_seed % 3 == 0 {
+        let (no, _) = real_parse_actions(b, &lexer, &prep.costs, sc.hash_seed, &sc.clock, RecoveryKind::None);
+        match no {
+            SimOutcome::Panic(msg) => j.viol("C07", "C07-a-panic", format!("parse_actions with RecoveryKind::None panicked: {msg}")),
+            SimOutcome::Ok(nr) => {
+                j.rep.probes.hit("runs_without_recovery");
+                if nr.value.is_some() {
+                    j.viol("C07", "C07-d-value-iff-repaired", "RecoveryKind::None: a value was returned for an input with a parse error".into());
+                }
+                if nr.errors.len() != 1 || !nr.errors[0].repairs.is_empty() {
+                    j.viol("C07", "C07-c-empty-not-last", format!("RecoveryKind::None: expected exactly one error without repairs, got {:?}", nr.errors.iter().map(|e| e.repairs.len()).collect::<Vec<_>>()));
+                } else if nr.errors[0].lexeme != errors[0].lexeme || nr.errors[0].stidx != errors[0].stidx {
+                    j.viol("C07", "C07-none-vs-cpctplus-first-error", format!("first error without recovery {:?}/state {} differs from the first error with recovery {:?}/state {}", nr.errors[0].lexeme, nr.errors[0].stidx, errors[0].lexeme, errors[0].stidx));
+                }
+                // actions ran exactly for the reductions of the prefix
+                let mut f: Vec<Tree> = vec![];
+                let mut ss2 = Stacks::new();
+                let st0 = ss2.from_slice(&[b.st.start_state().0]);
+                let c2 = Ctx::new(grm, &b.st, &prep.toks, &prep.costs);
+                let (_, _, acc) = c2.parse_from_tree(&mut ss2, st0, 0, &in_lexemes, &mut f);
+                if !acc && !c2.looped.get() {
+                    check_c08(&mut j, grm, &nr, None, None, Some(&f), true);
+                }
+            }
+        }
+    }
 
     rep
 }
